@@ -16,6 +16,8 @@ Theorem C18_walk_exact :
     nonempty (base E) = true ->
     serves w n0 t (folder_entries E site drive P oid ch ++ flat_map (node_entries E site drive P) ch) ->
     cuts_ok (P oid) = true -> forallb ids_ok ch = true -> forallb (links_ok P) ch = true ->
+    nodup_str_pre (children_url E site drive oid :: map snd (P oid)) = true ->
+    forallb (pages_ok E site drive P) ch = true ->
     n0 <= nreq s -> tok s = Some t -> need P oid ch <= fuel ->
     exists l, run E w (walk E fuel site drive oid path) s = (Ok (spec_files E path ch), adv s (api l)).
 Proof. intros E site drive P oid ch path w s t n0 fuel Hb. exact (walk_any E site drive P Hb oid ch path w s t n0 fuel). Qed.
@@ -155,3 +157,69 @@ Proof.
   intros A E w p s H. destruct (run_facts E w p s) as (_ & Hb). unfold balanced in Hb. lia.
 Qed.
 Print Assumptions C18_responses_closed_always.
+
+(* HISTORICAL, about the PRE-FIX definitions (list_items_paginated_v0 / get_folders_v0 = the loops before /repo
+   commit c964930, without the seen-URL guard): if the page served at u names u as its own next page, then for
+   EVERY fuel the loop performs exactly `fuel` further requests and is still not finished — the old Python loop
+   never ended and never raised.  Finding nextlink-cycle-no-guard, fixed by c964930. *)
+Theorem C18_pagination_termination_refuted_v0 :
+  forall (E : env) (path u : str) (items : list item) (fuel : nat) (w : world) (s : st) (t : str) (n0 : nat),
+    serves w n0 t [(u, page_obj items (Some u))] -> nonempty u = true -> n0 <= nreq s -> tok s = Some t ->
+    (exists s', run E w (list_items_paginated_v0 E fuel (Some u) path) s = (Raise OutOfFuel, s')
+                /\ nreq s' = nreq s + fuel /\ opened s' + closed s = closed s' + opened s)
+    /\ (exists s', run E w (get_folders_v0 fuel (Some u)) s = (Raise OutOfFuel, s') /\ nreq s' = nreq s + fuel).
+Proof.
+  intros E path u items fuel w s t n0 Hs Hu Hn Ht. split.
+  - exact (paginate_self_loop E path u items fuel w s t n0 Hs Hu Hn Ht).
+  - exact (folders_self_loop u items E fuel w s t n0 Hs Hu Hn Ht).
+Qed.
+Print Assumptions C18_pagination_termination_refuted_v0.
+
+(* TERMINATION of the guarded loops (today's code) against ANY server, no server_wf: whatever the transport
+   answers (any world: faults, cycles, repeated or dangling nextLinks), if the nextLinks it ever delivers lie in
+   a finite list U — and the start url too — then both listing loops finish (return or raise the client's error)
+   within |U| + 1 iterations from an empty seen set: OutOfFuel is never the result for any fuel > |U|.  More
+   precisely the measure is the number of urls of U not yet followed (unseen U seen). *)
+Theorem C18_pagination_terminates :
+  forall (E : env) (path : str) (w : world) (U : list str) (fuel : nat) (seen : list str) (cur : option str) (s : st),
+    links_in w U -> (truthy cur = true -> In (dflt cur) U) -> unseen U seen < fuel ->
+    fst (run E w (list_items_paginated E fuel seen cur path) s) <> Raise OutOfFuel
+    /\ fst (run E w (get_folders fuel seen cur) s) <> Raise OutOfFuel
+    /\ unseen U seen <= List.length U.
+Proof.
+  intros E path w U fuel seen cur s HL Hc Hm. split; [|split].
+  - exact (paginate_terminates E path w U HL fuel seen cur s Hc Hm).
+  - exact (folders_terminates E w U HL fuel seen cur s Hc Hm).
+  - exact (unseen_bound U seen).
+Qed.
+Print Assumptions C18_pagination_terminates.
+
+(* what the guard does: a page that names itself as next page makes the listing raise the client's request error
+   (status None) carrying that url, after exactly one request *)
+Theorem C18_repeated_link_raises :
+  forall (E : env) (path u : str) (items : list item) (w : world) (s : st) (t : str) (n0 fuel : nat),
+    serves w n0 t [(u, page_obj items (Some u))] -> nonempty u = true -> n0 <= nreq s -> tok s = Some t -> 2 <= fuel ->
+    run E w (list_items_paginated E fuel [] (Some u) path) s = (Raise (RequestError None u), adv s [(false, u)]).
+Proof. intros E path u items. exact (paginate_self_loop_guarded E path u items). Qed.
+Print Assumptions C18_repeated_link_raises.
+
+(* list_files_created_since / list_files_modified_since (whole drive): exactly the files whose created /
+   modified timestamp is >= since (inclusive; the OTHER timestamp is not consulted) and whose name ends with one
+   of the extensions, in listing order *)
+Theorem C18_files_since_spec :
+  forall (E : env) (tk site : str) (P : paging) (T : list node) (w : world) (n0 : nat) (s : st) (fuel : nat)
+         (created : bool) (since : dt) (exts : list str),
+    server_wf E site None P T = true -> nonempty tk = true ->
+    healthy_from w n0 E tk (server_table E site None P T) -> n0 <= nreq s -> cache_ok tk site s ->
+    need P None T <= fuel ->
+    forallb (comparable E (since_filter created since [] exts)) (spec_files E [] T) = true ->
+    exists s', run E w (list_files_since E fuel created since [] exts None) s
+               = (Ok (filter (since_pred E created since exts) (spec_files E [] T)), s') /\ balanced s s'.
+Proof.
+  intros E tk site P T w n0 s fuel created since exts Hwf Htk Hw Hn Hc Hf Hcmp.
+  destruct (C18_filtered_is_filter_of_walk E tk site P T w n0 s fuel (since_filter created since [] exts)
+              Hwf Htk Hw Hn Hc Hf eq_refl Hcmp) as (s' & R & Hb).
+  exists s'. split; [|exact Hb]. unfold list_files_since. rewrite R.
+  rewrite (filter_ext _ _ (since_matches E created since [] exts)). reflexivity.
+Qed.
+Print Assumptions C18_files_since_spec.
